@@ -187,6 +187,14 @@ Theorem C03_served_exactly_once : forall hc hu lc T,
 Proof. exact calm_serves_exactly_once. Qed.
 Print Assumptions C03_served_exactly_once.
 
+(* ... and there it stays: at rest no step of the operator is enabled (no event to process, no sleep to end); only the
+   environment can move the system again. *)
+Theorem C03_rest_is_stable : forall hc hu lc T w, quiescent w = true ->
+  (forall o waited lost, step hc hu lc T w (Proc o waited lost) = None) /\ step hc hu lc T w Fire = None
+  /\ calm_step hc hu lc T ok w = w.
+Proof. exact rest_is_stable. Qed.
+Print Assumptions C03_rest_is_stable.
+
 (* ... within [rank] steps *)
 Theorem C03_converges_bounded : forall hc hu lc T,
   NoDup (hc ++ hu) -> has_handlers hc hu = true ->
